@@ -605,6 +605,7 @@ func cmdCheck(args []string) {
 			"engine_disagreements":          disagree,
 			"samples":                       samples,
 			"harnesses":                     harnessNames,
+			"harness_definitions":           harnessDefinitions(snapDir, harnessNames),
 			"functions_encoded":             funcs,
 			"functions_encoded_other_packages": nOther,
 			"ssa_instructions_interpreted":  totalSteps,
@@ -751,4 +752,39 @@ func solverVersion(name string) string {
 		return name
 	}
 	return strings.TrimSpace(strings.SplitN(string(out), "\n", 2)[0])
+}
+
+// harnessDefinitions returns, for each harness that ran, its definition as written in the harness
+// sources of this run: the body of a one-line harness (which carries its bound parameters), or the
+// comment above a longer one.
+func harnessDefinitions(dir string, names []string) map[string]string {
+	want := map[string]bool{}
+	for _, n := range names {
+		want[n] = true
+	}
+	out := map[string]string{}
+	ents, _ := os.ReadDir(dir)
+	oneLine := regexp.MustCompile(`^func (vp[HTW]_\w+)\(\)\s*\{\s*(.*?)\s*\}\s*$`)
+	open := regexp.MustCompile(`^func (vp[HTW]_\w+)\(\)\s*\{\s*$`)
+	for _, e := range ents {
+		data, err := os.ReadFile(filepath.Join(dir, e.Name()))
+		if err != nil {
+			continue
+		}
+		lines := strings.Split(string(data), "\n")
+		for i, l := range lines {
+			if m := oneLine.FindStringSubmatch(l); m != nil && want[m[1]] {
+				out[m[1]] = m[2]
+				continue
+			}
+			if m := open.FindStringSubmatch(l); m != nil && want[m[1]] {
+				var doc []string
+				for j := i - 1; j >= 0 && strings.HasPrefix(lines[j], "//"); j-- {
+					doc = append([]string{strings.TrimSpace(strings.TrimPrefix(lines[j], "//"))}, doc...)
+				}
+				out[m[1]] = strings.Join(doc, " ")
+			}
+		}
+	}
+	return out
 }
